@@ -1,4 +1,495 @@
 package harness
 
-func (env *Env) setupProm() error                    { return nil }
-func (te *taskEnv) execProm(op *Op, rec *OpRec) bool { return false }
+import (
+	"fmt"
+	"math"
+	"sort"
+	"strings"
+	"time"
+
+	prom "github.com/prometheus/client_golang/prometheus"
+	dto "github.com/prometheus/client_model/go"
+	tally "github.com/uber-go/tally/v4"
+	promreporter "github.com/uber-go/tally/v4/prometheus"
+)
+
+type promState struct {
+	reg      *prom.Registry
+	rep      promreporter.Reporter
+	cbErrors []string
+	cbCalls  int
+}
+
+var promHandlerSeq int
+
+type promCBPanic struct{ msg string }
+
+func (p promCBPanic) String() string { return "harness callback panic: " + p.msg }
+
+func (env *Env) setupProm() error {
+	cfg := &env.Prog.Cfg
+	pc := cfg.Prom
+	if pc == nil {
+		pc = &PromCfg{}
+	}
+	st := &promState{reg: prom.NewRegistry()}
+	cb := func(err error) {
+		st.cbCalls++
+		st.cbErrors = append(st.cbErrors, err.Error())
+		if cfg.Faults.PanicCB {
+			panic(promCBPanic{err.Error()})
+		}
+	}
+	switch pc.OnError {
+	case "cfg-none", "cfg-default", "cfg-log":
+		// the configuration path registers an HTTP handler on the process-wide
+		// default mux: give every run of this process its own path
+		promHandlerSeq++
+		c := promreporter.Configuration{HandlerPath: fmt.Sprintf("/metrics-run-%d", promHandlerSeq)}
+		switch pc.OnError {
+		case "cfg-none":
+			c.OnError = "none"
+		case "cfg-log":
+			c.OnError = "log"
+		}
+		if pc.TimerHistogram {
+			c.TimerType = "histogram"
+		}
+		r, err := c.NewReporter(promreporter.ConfigurationOptions{Registry: st.reg})
+		if err != nil {
+			return err
+		}
+		st.rep = r
+	case "default":
+		opts := promreporter.Options{Registerer: st.reg}
+		if pc.TimerHistogram {
+			opts.DefaultTimerType = promreporter.HistogramTimerType
+		}
+		st.rep = promreporter.NewReporter(opts)
+	default:
+		opts := promreporter.Options{Registerer: st.reg, OnRegisterError: cb}
+		if pc.TimerHistogram {
+			opts.DefaultTimerType = promreporter.HistogramTimerType
+		}
+		st.rep = promreporter.NewReporter(opts)
+	}
+	env.ext = st
+	sopts := tally.ScopeOptions{
+		Tags:                   copyTags(cfg.RootTags),
+		Prefix:                 cfg.Prefix,
+		CachedReporter:         st.rep,
+		Separator:              promreporter.DefaultSeparator,
+		SanitizeOptions:        &promreporter.DefaultSanitizerOpts,
+		OmitCardinalityMetrics: cfg.OmitCard,
+	}
+	cfg.Separator = promreporter.DefaultSeparator
+	cfg.Sanitize = &SanOpts{
+		Name:  ValidChars{Ranges: [][2]rune{{'a', 'z'}, {'A', 'Z'}, {'0', '9'}}, Chars: []rune{'_'}},
+		Key:   ValidChars{Ranges: [][2]rune{{'a', 'z'}, {'A', 'Z'}, {'0', '9'}}, Chars: []rune{'_'}},
+		Value: ValidChars{Ranges: [][2]rune{{'a', 'z'}, {'A', 'Z'}, {'0', '9'}}, Chars: []rune{'_'}},
+		Repl:  '_',
+	}
+	env.Model = NewModel(cfg)
+	env.Root, env.RootCloser = tally.NewRootScope(sopts, time.Duration(cfg.IntervalNs))
+	env.main.scopes[0] = &scopeVar{sc: env.Root, ptr: objPtr(env.Root), model: env.Model.Root()}
+	return nil
+}
+
+// promSeries is one series of a gathered family.
+type promSeries struct {
+	labels  map[string]string
+	value   float64
+	count   uint64
+	sum     float64
+	buckets map[float64]uint64 // cumulative
+}
+
+type promFamily struct {
+	name   string
+	typ    string
+	series []promSeries
+}
+
+type gatherResult struct {
+	fams map[string]*promFamily
+	err  string
+}
+
+func (te *taskEnv) execProm(op *Op, rec *OpRec) bool {
+	if op.K != "gather" {
+		return false
+	}
+	st, _ := te.env.ext.(*promState)
+	if st == nil {
+		return true
+	}
+	res := &gatherResult{fams: map[string]*promFamily{}}
+	mfs, err := st.reg.Gather()
+	if err != nil {
+		res.err = err.Error()
+	}
+	for _, mf := range mfs {
+		f := &promFamily{name: mf.GetName(), typ: mf.GetType().String()}
+		for _, m := range mf.Metric {
+			s := promSeries{labels: map[string]string{}}
+			for _, l := range m.Label {
+				s.labels[l.GetName()] = l.GetValue()
+			}
+			switch mf.GetType() {
+			case dto.MetricType_COUNTER:
+				s.value = m.GetCounter().GetValue()
+			case dto.MetricType_GAUGE:
+				s.value = m.GetGauge().GetValue()
+			case dto.MetricType_HISTOGRAM:
+				h := m.GetHistogram()
+				s.count, s.sum = h.GetSampleCount(), h.GetSampleSum()
+				s.buckets = map[float64]uint64{}
+				for _, b := range h.Bucket {
+					s.buckets[b.GetUpperBound()] = b.GetCumulativeCount()
+				}
+			case dto.MetricType_SUMMARY:
+				s.count, s.sum = m.GetSummary().GetSampleCount(), m.GetSummary().GetSampleSum()
+			}
+			f.series = append(f.series, s)
+		}
+		res.fams[f.name] = f
+	}
+	rec.Extra = res
+	return true
+}
+
+func init() {
+	register(&Property{ID: "C17", Gen: genC17, Check: checkC17, Interest: func(env *Env) bool {
+		return env.Probes.Custom["series_checked"] > 0 || env.Probes.Custom["conflicts"] > 0
+	}})
+}
+
+var promNames = []string{"requests", "latency", "queue_depth", "a", "b_total", "x1"}
+
+func genC17(g *Gen, tier string) *Program {
+	p := &Program{Prop: "C17"}
+	c := &p.Cfg
+	c.Stack = "prom"
+	c.CPUs = pick(g, 1, 2, 4)
+	c.IntervalNs = pick(g, int64(0), int64(1e9))
+	c.OmitCard = true
+	g.schedule(c, c.IntervalNs)
+	conflict := g.Bool(45)
+	c.Prom = &PromCfg{TimerHistogram: g.Bool(40)}
+	if conflict {
+		c.Prom.OnError = pick(g, "", "", "cfg-none", "cfg-default", "default", "cfg-log")
+		c.Faults.PanicCB = c.Prom.OnError == "" && g.Bool(50)
+		c.Flags = map[string]int{"conflict": 1}
+	}
+	if g.Bool(30) {
+		c.Prefix = "svc"
+	}
+	if g.Bool(30) {
+		c.RootTags = map[string]string{"env": "prod"}
+	}
+	maxOps := 9
+	if tier == "thorough" {
+		maxOps = 16
+	}
+	uniq := 0
+	nTasks := g.Range(1, 3)
+	for t := 0; t < nTasks; t++ {
+		var ops []Op
+		nextS, nextM := 1, 1
+		scopes := []int{0}
+		// Prometheus wants one set of label names per metric name: outside the
+		// conflict profile the name carries the scope's tag keys
+		keysOf := map[int]string{0: ""}
+		for k := range c.RootTags {
+			keysOf[0] += "_" + k
+		}
+		type mh struct {
+			m    int
+			kind string
+			spec *BucketSpec
+		}
+		var ms []mh
+		n := g.Range(3, maxOps)
+		for guard := 0; len(ops) < n && guard < 100; guard++ {
+			switch g.weighted(2, 4, 8, 1) {
+			case 0:
+				par := scopes[g.Intn(len(scopes))]
+				if g.Bool(50) {
+					ops = append(ops, Op{K: "sub", S: par, D: nextS, Name: pick(g, "api", "db")})
+					keysOf[nextS] = keysOf[par]
+				} else {
+					k := pick(g, "zone", "host_id")
+					ops = append(ops, Op{K: "tag", S: par, D: nextS, Tags: map[string]string{k: pick(g, "a", "b", "c1")}})
+					keysOf[nextS] = keysOf[par]
+					if !strings.Contains(keysOf[par]+"_", "_"+k+"_") {
+						keysOf[nextS] += "_" + k
+					}
+				}
+				scopes = append(scopes, nextS)
+				nextS++
+			case 1:
+				kind := []string{"counter", "gauge", "timer", "hist"}[g.Intn(4)]
+				name := promNames[g.Intn(len(promNames))]
+				if !conflict {
+					name = kind[:1] + "_" + name // one kind per name
+				}
+				sv := scopes[g.Intn(len(scopes))]
+				if !conflict {
+					ks := strings.Split(strings.TrimPrefix(keysOf[sv], "_"), "_")
+					sort.Strings(ks)
+					name += "_k" + strings.Join(ks, "")
+				}
+				op := Op{K: kind, S: sv, M: nextM, Name: name}
+				var spec *BucketSpec
+				if kind == "hist" {
+					if g.Bool(50) {
+						spec = &BucketSpec{Bits: []uint64{f64bits(0), f64bits(1), f64bits(2.5), f64bits(10)}}
+					} else {
+						spec = &BucketSpec{Dur: true, Durs: []int64{1e6, 5e8, 1e9, 2e9}}
+					}
+					if !conflict {
+						// a histogram name always goes with one bucket set
+						if spec.Dur {
+							op.Name += "_d"
+						} else {
+							op.Name += "_v"
+						}
+					}
+					op.B = spec
+				}
+				ops = append(ops, op)
+				ms = append(ms, mh{nextM, kind, spec})
+				nextM++
+			case 2:
+				if len(ms) == 0 {
+					continue
+				}
+				m := ms[g.Intn(len(ms))]
+				uniq++
+				switch m.kind {
+				case "counter":
+					ops = append(ops, Op{K: "inc", M: m.m, I: int64(g.Range(0, 7))})
+				case "gauge":
+					ops = append(ops, Op{K: "upd", M: m.m, F: f64bits(float64(uniq)*0.5 - 3)})
+				case "timer":
+					ops = append(ops, Op{K: "rec", M: m.m, I: int64(uniq) * 1e6})
+				case "hist":
+					if m.spec.Dur {
+						ops = append(ops, Op{K: "recd", M: m.m, I: pick(g, int64(0), int64(1e6), int64(1e6+1), int64(5e8), int64(1e9), int64(3e9))})
+					} else {
+						ops = append(ops, Op{K: "recv", M: m.m, F: f64bits(pick(g, -1.0, 0, 0.5, 1, 2.5, 2.6, 10, 11))})
+					}
+				}
+			case 3:
+				if c.IntervalNs > 0 {
+					ops = append(ops, Op{K: "sleep", I: c.IntervalNs})
+				} else {
+					ops = append(ops, Op{K: "yield"})
+				}
+			}
+		}
+		p.Tasks = append(p.Tasks, ops)
+	}
+	p.Epilogue = append(p.Epilogue, Op{K: "settle", N: g.Intn(2)}, Op{K: "gather"})
+	return p
+}
+
+func labelsKey(m map[string]string) string {
+	keys := make([]string, 0, len(m))
+	for k := range m {
+		keys = append(keys, k)
+	}
+	sort.Strings(keys)
+	s := ""
+	for _, k := range keys {
+		s += k + "=" + m[k] + ","
+	}
+	return s
+}
+
+func checkC17(env *Env) []Violation {
+	ops := env.OpsBeforeTeardown()
+	var out []Violation
+	st, _ := env.ext.(*promState)
+	if st == nil {
+		return out
+	}
+	conflict := env.Prog.Cfg.Flags["conflict"] == 1
+	mode := ""
+	if env.Prog.Cfg.Prom != nil {
+		mode = env.Prog.Cfg.Prom.OnError
+	}
+	callbackMayPanic := env.Prog.Cfg.Faults.PanicCB || mode == "default" || mode == "cfg-default"
+	// panics: never a nil dereference or other runtime error; a panic raised by
+	// the configured callback is the callback's business
+	for _, r := range ops {
+		if r.Panic == "" {
+			continue
+		}
+		stk, _ := r.Extra.(string)
+		if len(stk) > 1200 {
+			stk = stk[:1200]
+		}
+		_, sentinel := r.PanicVal.(promCBPanic)
+		switch {
+		case r.PanicRT:
+			out = append(out, vf("runtime-panic", "%s panicked with a runtime error: %s\n%s", r.Op.String(), r.Panic, stk))
+		case sentinel:
+			env.Probes.inc("F8_callback_panics")
+		case callbackMayPanic:
+			if _, isErr := r.PanicVal.(error); isErr {
+				env.Probes.inc("F8_callback_panics")
+			} else {
+				out = append(out, vf("panic", "%s panicked with %v (not raised by the configured callback)\n%s", r.Op.String(), r.Panic, stk))
+			}
+		default:
+			out = append(out, vf("panic", "%s panicked although the configured error callback returns: %s\n%s", r.Op.String(), r.Panic, stk))
+		}
+	}
+	if st.cbCalls > 0 {
+		env.Probes.inc("conflicts")
+	}
+	if conflict {
+		return out
+	}
+	// value agreement (histories that do not reuse a name for two kinds)
+	if st.cbCalls > 0 {
+		out = append(out, vf("unexpected-conflict", "registration rejected in a history without name reuse: %v", st.cbErrors))
+		return out
+	}
+	var g *gatherResult
+	for _, r := range ops {
+		if r.Op.K == "gather" && r.Ret != 0 && r.Panic == "" {
+			g, _ = r.Extra.(*gatherResult)
+		}
+	}
+	if _, _, ok := opWindow(ops, "settle"); !ok || g == nil {
+		return out
+	}
+	if g.err != "" {
+		out = append(out, vf("gather-error", "Gather failed: %s", g.err))
+		return out
+	}
+	ci := newCloseInfo(env, ops)
+	type want struct {
+		kind    string
+		name    string
+		tags    map[string]string
+		sum     float64
+		gauge   float64
+		hasG    bool
+		n       uint64
+		samples []float64
+		spec    *BucketSpec
+		skip    bool
+	}
+	ws := map[string]*want{}
+	for _, r := range ops {
+		mv, _ := r.Obj.(*metricVar)
+		if mv == nil || r.Panic != "" {
+			continue
+		}
+		k := mv.kind + "|" + idKey(mv.FullName, mv.Tags)
+		w := ws[k]
+		if w == nil {
+			w = &want{kind: mv.kind, name: mv.FullName, tags: mv.Tags, spec: mv.spec}
+			ws[k] = w
+		}
+		ob := ci.obligation(mv, r)
+		switch r.Op.K {
+		case "inc", "upd", "rec", "recv", "recd":
+			if ob != required {
+				w.skip = true
+				continue
+			}
+		}
+		switch r.Op.K {
+		case "inc":
+			w.sum += float64(r.Op.I)
+		case "upd":
+			w.gauge, w.hasG = f64from(r.Op.F), true
+		case "rec":
+			w.n++
+		case "recv":
+			if w.spec != nil && !w.spec.Dur {
+				w.samples = append(w.samples, f64from(r.Op.F))
+			}
+		case "recd":
+			if w.spec != nil && w.spec.Dur {
+				w.samples = append(w.samples, float64(r.Op.I)/float64(time.Second))
+			}
+		}
+	}
+	find := func(name string, tags map[string]string) (*promFamily, *promSeries) {
+		f := g.fams[name]
+		if f == nil {
+			return nil, nil
+		}
+		for i := range f.series {
+			if labelsKey(f.series[i].labels) == labelsKey(tags) {
+				return f, &f.series[i]
+			}
+		}
+		return f, nil
+	}
+	// gauges are single-updater per identity only if one task updates them; skip multi
+	upd := map[string]map[int]bool{}
+	for _, r := range ops {
+		if mv, _ := r.Obj.(*metricVar); mv != nil && r.Op.K == "upd" {
+			k := idKey(mv.FullName, mv.Tags)
+			if upd[k] == nil {
+				upd[k] = map[int]bool{}
+			}
+			upd[k][r.Task] = true
+		}
+	}
+	for _, w := range ws {
+		if w.skip {
+			continue
+		}
+		f, s := find(w.name, w.tags)
+		touched := w.sum != 0 || w.hasG || w.n > 0 || len(w.samples) > 0
+		if s == nil {
+			if touched && !(w.kind == "counter" && w.sum == 0) {
+				out = append(out, vf("series-missing", "%s %q %v was recorded but Gather shows no such series (family present: %v)", w.kind, w.name, w.tags, f != nil))
+			}
+			continue
+		}
+		env.Probes.inc("series_checked")
+		switch w.kind {
+		case "counter":
+			if s.value != w.sum {
+				out = append(out, vf("counter-value", "counter %q %v: Gather shows %v, increments sum to %v", w.name, w.tags, s.value, w.sum))
+			}
+		case "gauge":
+			if w.hasG && len(upd[idKey(w.name, w.tags)]) == 1 && s.value != w.gauge {
+				out = append(out, vf("gauge-value", "gauge %q %v: Gather shows %v, last update %v", w.name, w.tags, s.value, w.gauge))
+			}
+		case "timer":
+			if s.count != w.n {
+				out = append(out, vf("timer-count", "timer %q %v: Gather shows %d observations, %d values recorded", w.name, w.tags, s.count, w.n))
+			}
+		case "hist":
+			if s.count != uint64(len(w.samples)) {
+				out = append(out, vf("histogram-count", "histogram %q %v: Gather shows %d samples, %d recorded", w.name, w.tags, s.count, len(w.samples)))
+				continue
+			}
+			for ub, cum := range s.buckets {
+				if math.IsInf(ub, 1) {
+					continue
+				}
+				var n uint64
+				for _, x := range w.samples {
+					if x <= ub {
+						n++
+					}
+				}
+				if cum != n {
+					out = append(out, vf("histogram-bucket", "histogram %q %v: cumulative count at bound %v is %d, %d recorded samples are <= it (samples %v)", w.name, w.tags, ub, cum, n, w.samples))
+				}
+			}
+		}
+	}
+	_ = fmt.Sprint
+	return out
+}
